@@ -125,7 +125,9 @@ Definition reparse_ws (f : Fmt.file) : Fmt.file := respace (Fmt.reparse f).
    Whitespace node occurs nowhere else.  A body
    where a non-trailer is directly followed by the next node ( <!--a--><!--b-->, {children...}{children...}, }text )
    is NOT canonical: the formatter puts the follower on a new line and the re-parsed body has a Whitespace node (= a
-   rendered space) there.  Void elements have no children. *)
+   rendered space) there.  Void elements have no children.  [parser_shaped] = this ([ws_shaped]) and [no_call_after_text]
+   (below): the two situations in which the tree the parser builds from the printed text is not the one reparse_ws
+   describes or keeps another rendered space. *)
 Definition all_ws (l : list Fmt.node) : bool := forallb Fmt.is_ws l.
 Fixpoint wsc (started pending : bool) (l : list Fmt.node) : bool :=
   match l with
@@ -155,8 +157,36 @@ Fixpoint shaped_node (n : Fmt.node) : bool :=
   | Fmt.NFor _ b => ws_canonical b && sl b
   | _ => true
   end.
-Definition parser_shaped (f : Fmt.file) : bool :=
+(* A legacy call `{! x }` is printed in the new syntax, `@x`.  reparse_ws reads it back as an element call - which is what
+   the parser does when `@x` starts a line or follows a node that ended.  Directly after a text node on the SAME line it
+   does not: the text parser does not stop at `@`, so `alpha {! c0 }`, printed `alpha @c0`, is read back as the single
+   text node "alpha @c0" and the call is gone (reproduced on the real code; harness shape
+   LegacyCallAfterTextReadBackAsText).  [no_call_after_text]: in no child list does a legacy call follow (Whitespace nodes,
+   which the formatter skips, aside) a text node whose trailing space is not a line break.  Sufficient, not necessary:
+   the formatter may still end the text's line for a reason of its own. *)
+Definition is_callt (n : Fmt.node) : bool := match n with Fmt.NCallT _ => true | _ => false end.
+Definition head_callt (l : list Fmt.node) : bool := match l with y :: _ => is_callt y | [] => false end.
+Definition text_open (n : Fmt.node) : bool :=
+  match n with Fmt.NText _ Fmt.SpVert => false | Fmt.NText _ _ => true | _ => false end.
+Definition absorbs (c : Fmt.node) (r : list Fmt.node) : bool := text_open c && head_callt (skip_ws r).
+Fixpoint nca_node (n : Fmt.node) : bool :=
+  let nl := fix nl (l : list Fmt.node) : bool := match l with [] => true | c :: r => negb (absorbs c r) && nca_node c && nl r end in
+  let nc := fix nc (cs : list (bytes * list Fmt.node)) : bool := match cs with [] => true | (_, cb) :: r => nl cb && nc r end in
+  match n with
+  | Fmt.NElem _ _ _ ch _ _ => nl ch
+  | Fmt.NCall _ _ ch => nl ch
+  | Fmt.NIf _ th elifs el => nl th && nc elifs && nl el
+  | Fmt.NSwitch _ cs => nc cs
+  | Fmt.NFor _ b => nl b
+  | _ => true
+  end.
+Fixpoint nca_list (l : list Fmt.node) : bool :=
+  match l with [] => true | c :: r => negb (absorbs c r) && nca_node c && nca_list r end.
+Definition no_call_after_text (f : Fmt.file) : bool :=
+  forallb (fun n => match n with Fmt.FTempl _ ch => nca_list ch | _ => true end) (Fmt.f_nodes f).
+Definition ws_shaped (f : Fmt.file) : bool :=
   forallb (fun n => match n with Fmt.FTempl _ ch => sh_list shaped_node ch | _ => true end) (Fmt.f_nodes f).
+Definition parser_shaped (f : Fmt.file) : bool := ws_shaped f && no_call_after_text f.
 
 (* ---------- agreement of two generator ASTs up to what [embed] cannot know ----------
    Never compared: positions (all of them), the value of a Whitespace node (only whether it is empty), SGo's
